@@ -9,11 +9,16 @@ SPEC = {
     "rule": ("generated startup profile trees (once/const/line/step/instance_step/composites, 1-20 instances over up to ~400 ms, "
              "pre-started at a known t0) x run mode (endless profile+ammo ended by cancel after all tokens became instances; shared "
              "finite profile outlasting / shorter than the startup; per-instance finite profile; bounded ammo) x optional gun-factory "
-             "failure at instance i; the real engine with recording doubles, 24 cases concurrently per process (sleep-bound). "
+             "failure at instance i; in a third of the endless and per-instance cases the provider buffers its whole finite ammo set and its "
+             "Run returns at once (fake provider queue = ammo count, after_last = return) while the startup profile is still releasing "
+             "tokens and more ammo is queued than the run can shoot (checked afterwards: fewer ammo taken than queued) - Run returning is "
+             "not 'ammo ran out', every startup token must still become an instance; the real engine with recording doubles, 24 cases concurrently per process (sleep-bound). "
              "Non-trivial = >= 2 instances over >= 2 distinct startup instants; distinct = hash of the case."),
     "floors": {"TestStartup/mode_long": 0.15, "TestStartup/cut_short_ammo": 0.02, "TestStartup/cut_short_creation_failed": 0.03,
                "TestStartup/composite_startup": 0.3, "TestStartup/all_tokens_started": 0.3,
-               "TestStartup/per_instance_profile_shorter_than_startup": 0.03},
+               "TestStartup/per_instance_profile_shorter_than_startup": 0.03,
+               "TestStartup/provider_run_returned_early_ammo_left": 0.1,
+               "TestStartup/provider_run_returned_before_last_startup_token": 0.03},
     "manifest": {
         "technique": "property-based testing (rapid generators, batch-parallel) of the real engine; validity predicates over measured instants",
         "text": ("Startup profiles are generated, the engine is run with recording doubles, and measured instants are compared: the k-th gun "
@@ -21,7 +26,9 @@ SPEC = {
                  "token count unless ammo/shared profile/creation failure/cancel cut the start short, and no instance stops before the "
                  "earliest instant at which ammo ran out, the shared profile was exhausted or the run was cancelled."),
         "note": ("Only measured instants are compared (a timer cannot fire early, so load can only delay creations, which the oracle "
-                 "allows). Startup token times come from the C02 reference chain. Instance stop = its gun's Close instant."),
+                 "allows). Startup token times come from the C02 reference chain. Instance stop = its gun's Close instant. The one comparison with "
+                 "a built-in margin (shared profile 60 ms longer than the startup: a shortfall is only accepted when the profile ended first) is "
+                 "counted inconclusive_machine_load instead of failing when the per-case load probe saw sleepers woken more than 25 ms late."),
     },
     "assumptions": ["the endless-mode sub-check waits up to 15 s for all startup tokens to become instances before it cancels"],
 }
